@@ -73,6 +73,9 @@ type Runner struct {
 	// properties that speak of content (C15): an undo revives a tombstone in
 	// place on one replica and re-creates it as one node on another.
 	NormaliseChunks bool
+	// NonParticipant reports peers whose attachment keeps no version-vector
+	// row (GC-free): they do not count as "still attached" for the F23 exclusion.
+	NonParticipant func(p *Peer) bool
 	// MaxPeers bounds late attachers.
 	MaxPeers int
 	// AttachOpts returns the attach options for the i-th attaching peer.
@@ -331,7 +334,7 @@ func (r *Runner) Step(s Step) *Failure {
 		if desc == "undo" || desc == "redo" {
 			r.Ev["undo_redo_executed"]++
 		}
-		if s.Op == "pset" || s.Op == "pclear" {
+		if s.Op == "pset" || s.Op == "pclear" || s.Op == "pmix" {
 			r.Ev["presence_write"]++
 		}
 		if r.OnEdit != nil {
@@ -432,7 +435,9 @@ func (r *Runner) Step(s Step) *Failure {
 	case s.Op == "detach":
 		attached := 0
 		for _, q := range r.Peers {
-			if q.Attached {
+			// (F23: some client with a version-vector row must stay attached;
+			// GC-free attachments have none)
+			if q.Attached && (r.NonParticipant == nil || !r.NonParticipant(q) || q == p) {
 				attached++
 			}
 		}
@@ -450,7 +455,7 @@ func (r *Runner) Step(s Step) *Failure {
 	case s.Op == "deactivate":
 		attached := 0
 		for _, q := range r.Peers {
-			if q.Attached {
+			if q.Attached && (r.NonParticipant == nil || !r.NonParticipant(q) || q == p) {
 				attached++
 			}
 		}
@@ -810,6 +815,7 @@ type RunOpts struct {
 	StepGuard         func(s Step) (Step, string)
 	TolerateUndoError bool
 	NormaliseChunks   bool
+	NonParticipant    func(p *Peer) bool
 	AfterQuiesc       func(r *Runner) *Failure
 	AttachOpts        func(i int) []interface{}
 	RecordCalls       bool
@@ -829,6 +835,7 @@ func Run(p Program, o RunOpts) (res Result) {
 	r.StepGuard = o.StepGuard
 	r.TolerateUndoError = o.TolerateUndoError
 	r.NormaliseChunks = o.NormaliseChunks
+	r.NonParticipant = o.NonParticipant
 	r.AttachOpts = o.AttachOpts
 	defer func() {
 		res.Hist = r.Hist
